@@ -10,10 +10,6 @@ impl Clone for SocketAddr { #[verifier::external_body] fn clone(&self) -> (r: Se
 impl Copy for SocketAddr {}
 impl Clone for IpAddr { #[verifier::external_body] fn clone(&self) -> (r: Self) ensures r == *self { unimplemented!() } }
 impl Copy for IpAddr {}
-impl Clone for Ipv4Addr { #[verifier::external_body] fn clone(&self) -> (r: Self) ensures r == *self { unimplemented!() } }
-impl Copy for Ipv4Addr {}
-impl Clone for Ipv6Addr { #[verifier::external_body] fn clone(&self) -> (r: Self) ensures r == *self { unimplemented!() } }
-impl Copy for Ipv6Addr {}
 pub struct Instant { pub t: u64 }
 impl Instant {
     #[verifier::external_body] pub fn now() -> (r: Instant) { unimplemented!() }
